@@ -86,7 +86,46 @@ type vsSide struct {
 	tap          []vsWire
 	onClose      int
 	closeBegun   bool // the harness called Close on this side's session
+	rcClose      int  // IOTransport: Close calls on the Reader half handed to the transport
+	wcClose      int  // IOTransport: Close calls on the Writer half
 	closeBegunSeq int
+}
+
+// vsPipeReader / vsPipeWriter: the two halves a user hands to IOTransport, each counting its Close
+// calls. The Writer's Close can be made to FAIL (after closing the pipe: a writer that flushes on Close
+// when the peer has stopped reading, a writer that was already closed): "writes start failing midway"
+// includes the last one.
+type vsPipeReader struct {
+	io.ReadCloser
+	s *vsSide
+}
+
+func (p *vsPipeReader) Close() error {
+	p.s.c.mu.Lock()
+	p.s.rcClose++
+	p.s.c.trLocked("%s READER HALF CLOSE", vsSideName[p.s.who])
+	p.s.c.mu.Unlock()
+	return p.ReadCloser.Close()
+}
+
+type vsPipeWriter struct {
+	io.WriteCloser
+	s    *vsSide
+	fail bool
+}
+
+var errVsCloseFail = errors.New("close |1: flush failed: broken pipe (verif fault)")
+
+func (p *vsPipeWriter) Close() error {
+	p.s.c.mu.Lock()
+	p.s.wcClose++
+	p.s.c.trLocked("%s WRITER HALF CLOSE (fails: %v)", vsSideName[p.s.who], p.fail)
+	p.s.c.mu.Unlock()
+	err := p.WriteCloser.Close()
+	if p.fail {
+		return errVsCloseFail
+	}
+	return err
 }
 
 type vsTransport struct {
@@ -372,9 +411,14 @@ type vsCfg struct {
 	hsFault   string // fault armed before Connect ("" = none)
 	nact      int
 	faultBudget int
+	// axes added later draw from their own generator (vsRng2), so that the cases of a given (seed, idx)
+	// keep their earlier shape
+	wcloseFail [2]bool // pipe transport: Close of this side's Writer half returns an error
+	subPark    bool    // the server's SubscribeHandler parks (released like a parked tool handler)
 }
 
 type vsCase struct {
+	nsubh int // SubscribeHandler invocations (guarded by mu)
 	nCancelChecks int // cancellations judged so far in this case
 	seed int64
 	idx  int
@@ -424,6 +468,10 @@ type vsCase struct {
 	cbWaiting int  // tool handlers currently inside a (bounded) callback into the client
 	stopped   bool // forceCleanup has begun: programs stop issuing further steps
 	listenIDsAtClose map[string]bool // ids registered in ss.listenIDs when the harness called ServerSession.Close
+}
+
+func vsRng2(seed int64, idx int) *rand.Rand {
+	return rand.New(rand.NewSource(seed*1000033 + 9100000 + int64(idx)))
 }
 
 func vsRng(seed int64, idx int) *rand.Rand {
@@ -664,6 +712,23 @@ func (c *vsCase) serverCall(ctx context.Context, ss *ServerSession, kind, tok st
 		return s, nil
 	}
 	return "", fmt.Errorf("verif: unknown server call %q", kind)
+}
+
+// serverSubscribe is the server's SubscribeHandler (resources/subscribe, and every URI of a
+// subscriptions/listen): user code that runs INSIDE the listen handler before it parks. With cfg.subPark
+// it parks on a gate like a tool handler (released by a release action, by its context or at the end).
+func (c *vsCase) serverSubscribe(ctx context.Context, req *SubscribeRequest) error {
+	if !c.cfg.subPark {
+		return nil
+	}
+	c.mu.Lock()
+	c.nsubh++
+	tok := fmt.Sprintf("subh%d", c.nsubh)
+	c.mu.Unlock()
+	h := c.enter(vsServer, "subscribe", tok, ctx)
+	defer c.exit(h)
+	c.hold(h, vsBeh{}, true)
+	return nil
 }
 
 func (c *vsCase) serverProgress(ctx context.Context, req *ProgressNotificationServerRequest) {
@@ -944,6 +1009,22 @@ func (c *vsCase) genCfg() {
 		lst = "1"
 	}
 	c.desc = append(c.desc, "tr="+tr, "v="+c.cfg.version, "lc="+lst, "ka="+ka)
+	r2 := vsRng2(c.seed, c.idx)
+	if c.cfg.pipe {
+		for i := range c.cfg.wcloseFail {
+			if c.cfg.wcloseFail[i] = r2.Intn(3) == 0; c.cfg.wcloseFail[i] {
+				c.desc = append(c.desc, "wcf="+vsSideName[i][:1])
+				c.tag("writer-close-fails")
+			}
+		}
+	} else {
+		r2.Intn(3)
+		r2.Intn(3)
+	}
+	if c.cfg.subPark = r2.Intn(5) == 0; c.cfg.subPark {
+		c.desc = append(c.desc, "subpark")
+		c.tag("subscribe-handler-parks")
+	}
 	c.tag("tr=" + tr)
 	c.tag("v=" + c.cfg.version)
 	c.tag("ka=" + ka)
@@ -1163,7 +1244,7 @@ func (c *vsCase) setup() {
 	}
 	sopts := &ServerOptions{
 		ProgressNotificationHandler: c.serverProgress,
-		SubscribeHandler:            func(context.Context, *SubscribeRequest) error { return nil },
+		SubscribeHandler:            c.serverSubscribe,
 		UnsubscribeHandler:          func(context.Context, *UnsubscribeRequest) error { return nil },
 		KeepAlive:                   c.cfg.kaServer,
 	}
@@ -1192,8 +1273,8 @@ func (c *vsCase) setup() {
 	if c.cfg.pipe {
 		c2sR, c2sW := io.Pipe()
 		s2cR, s2cW := io.Pipe()
-		ct = &IOTransport{Reader: s2cR, Writer: c2sW}
-		st = &IOTransport{Reader: c2sR, Writer: s2cW}
+		ct = &IOTransport{Reader: &vsPipeReader{s2cR, c.side[vsClient]}, Writer: &vsPipeWriter{c2sW, c.side[vsClient], c.cfg.wcloseFail[vsClient]}}
+		st = &IOTransport{Reader: &vsPipeReader{c2sR, c.side[vsServer]}, Writer: &vsPipeWriter{s2cW, c.side[vsServer], c.cfg.wcloseFail[vsServer]}}
 		c.raw = []io.Closer{c2sR, c2sW, s2cR, s2cW}
 	} else {
 		a, b := net.Pipe()
@@ -2032,6 +2113,9 @@ func (c *vsCase) judge() {
 			if n > 0 && !s.closeFailed[k] {
 				c.viols = append(c.viols, fmt.Sprintf("C05: the %s's transport was closed while %d of its handlers were still running and the transport had not failed", vsSideName[i], n))
 			}
+		}
+		if c.cfg.pipe && !hang && s.closeCalls > 0 && (s.rcClose == 0 || s.wcClose == 0) {
+			c.viols = append(c.viols, fmt.Sprintf("C05: the %s's session over IOTransport has ended and its transport was closed, but not both halves the user handed in were closed (Reader.Close calls %d, Writer.Close calls %d): a reader that is never closed leaves the transport's read loop, blocked in Read, behind for ever", vsSideName[i], s.rcClose, s.wcClose))
 		}
 		closeReturned := false
 		for _, w := range c.waiters {
